@@ -338,6 +338,10 @@ def make_contracts(L):
             eq("gain_equation", L.mm(G, S), L.mm(P, L.T(A))),
             eq("backward_offset", xi, m - L.mv(G, m_obs)),
             eq("backward_cov", Xi, P - L.mm(L.mm(G, S), L.T(G))),
+            # the two factorisations p(y|x) p(x) and p(x|y) p(y) describe the same joint Gaussian law
+            eq("joint_mean_of_x_preserved", L.mv(G, m_obs) + xi, m),
+            eq("joint_cov_of_x_preserved", L.mm(L.mm(G, S), L.T(G)) + Xi, P),
+            eq("joint_cross_cov_preserved", L.mm(G, S), L.mm(P, L.T(A))),
         ]
 
     def revert_inst(tier):
